@@ -2,7 +2,7 @@
 """Copies sub-agent deliverables /tmp/seeded-out/<agent>/<vN>/ into /verif/seeded/<PROP>-<agent>-<vN>/
 (patch.diff, demo.py, notes.md) and writes a meta.json skeleton (kept if it already exists)."""
 import os, sys, json, shutil
-SRCS = ['/tmp/seeded-out', '/tmp/seeded-out2', '/tmp/seeded-out4', '/tmp/seeded-out5', '/tmp/seeded-out6', '/tmp/seeded-out7', '/tmp/seeded-out8']
+SRCS = ['/tmp/seeded-out', '/tmp/seeded-out2', '/tmp/seeded-out4', '/tmp/seeded-out5', '/tmp/seeded-out6', '/tmp/seeded-out7', '/tmp/seeded-out8', '/tmp/seeded-out10']
 DST = os.path.join(os.path.dirname(os.path.dirname(os.path.abspath(__file__))), 'seeded')
 RELATED = {'C02': ['C02', 'C03', 'C08'], 'C03': ['C03', 'C02', 'C08'], 'C08': ['C08', 'C02'], 'C16': ['C16'], 'C19': ['C19', 'C16']}
 for SRC in SRCS:
